@@ -38,16 +38,19 @@ def run(ctx):
     if f:
         e = ex(prog, f)
         g = cfg(f)
-        TIP = P.named('tip_block_hash')
+        from sa.util import is_var
+        lh, lht = tip_locals(prog, f)
+        TIP = is_var(lh) if lh is not None else (lambda x: False)
+        TIPH = is_var(lht) if lht is not None else (lambda x: False)
         resp = [e.rvalue(st['rv']) for b in f.blocks for st in b['stmts'] if (st.get('rv') or {}).get('agg') == 'adt' and st['rv']['adt'].endswith('GetUtxosResponse')]
         pages = [(k, ex(prog, k).rvalue(st['rv'])) for k in [f] + prog.descendants(f) for b in k.blocks for st in b['stmts'] if (st.get('rv') or {}).get('agg') == 'adt' and st['rv']['adt'] == T + 'Page']
-        okr = len(resp) == 1 and P.call('ic_btc_types::BlockHash::to_vec', TIP)(dict(resp[0][4]).get('tip_block_hash')) and P.named('tip_block_height')(dict(resp[0][4]).get('tip_height'))
+        okr = len(resp) == 1 and P.call('ic_btc_types::BlockHash::to_vec', TIP)(dict(resp[0][4]).get('tip_block_hash')) and TIPH(dict(resp[0][4]).get('tip_height'))
         okp = False
         cap_ok = False
         if len(pages) == 1:
             k, pg = pages[0]
             ctx.touch(k)
-            okp = P.either(P.upvar('tip_block_hash'), TIP)(dict(pg[4]).get('tip_block_hash'))
+            okp = P.either(P.captured(ex(prog, k), TIP), TIP)(dict(pg[4]).get('tip_block_hash'))
             # the closure captures the same local the response reads
             if k.id != f.id:
                 for b in f.blocks:
@@ -71,7 +74,7 @@ def run(ctx):
         if pages:
             pg = pages[0][1]
             d = dict(pg[4])
-            NX = P.either(P.param('next'), P.named('next'))
+            NX = P.either(P.param(), P.var())
             okpg = P.field('height', NX)(d.get('height')) and P.has(P.field('outpoint', NX))(d.get('outpoint'))
             ctx.check(okpg, 'R6', 'token-offset-is-next-element', pages[0][0], 'the token\'s (height, outpoint) are those of the first omitted element', 'page token offset: %s' % show(pg)[:200])
         # R5 resume
